@@ -29,6 +29,9 @@ CFG = {
         "Leptos.View.setCssProperty_attrs",
         "Leptos.View.removeCssProperty_attrs",
         "Leptos.View.rebuild_core",
+        "Leptos.View.C03_spread_typed",
+        "Leptos.View.hasTy_spread",
+        "Leptos.View.wf_spread",
         "Leptos.View.AttrsFresh_kv",
         "Leptos.View.AttrsRebuild_kv",
         "Leptos.View.Rep.serSim",
@@ -58,7 +61,15 @@ CFG = {
     "harness_bin": "c03",
     "n": {"quick": 40000, "thorough": 600000},
     "trivial_tags": ["unit", "unmount", "text-same"],
-    "rule": "(widened after seed round 2: text children of type String / &'static str / Cow<'static,str> / Arc<str> whose successive values "
+    "rule": "(widened after seed round 3: every attribute item in every Rust string type of its value -- String, &'static str, "
+            "Cow<'static,str>, Arc<str>, Oco<'static,str>, for style:(name,value) also of the property NAME -- and passed through "
+            "into_cloneable() / into_cloneable_owned() before it is added, statically typed and inside AnyView (into_owned erases "
+            "the attributes); the whole-value optional Style<Option<_>>; attribute spreading view.add_any_attr(attr) over tuples / Vec / "
+            "Option / Either / arrays / one element, nested, and over AnyView (AnyViewWithAttrs; while F-C03-8 is unrepaired only with a "
+            "content that keeps its type and its one top-level element); class-toggle NAMES and style-property NAMES / VALUES that are "
+            "padded, contain white space, are empty or differ in case only, class / style strings with padding and case variants; "
+            "the oracle also fails on a DOM exception logged by the op or by the fresh build) "
+            "(widened after seed round 2: text children of type String / &'static str / Cow<'static,str> / Arc<str> whose successive values "
             "are fresh allocations or prefix / suffix / identical / whole slices of ONE interned buffer; arrays [T; N] incl. the node-less "
             "[T; 0] as first / middle / last tuple member and inside the old branch of Either / EitherOf3 / Option / AnyView switches) "
             "seeded generator over a closed family of ~120 concrete tachys view types (every combinator: String, (), tuples "
@@ -71,6 +82,9 @@ CFG = {
     "trusted": [
         "hooks/native_dom.patch: tachys::renderer::native_dom (in-memory DOM with insertBefore/remove/classList/style "
         "semantics) standing in for the browser DOM",
+        "lean/Driver/C03.lean reads over the `~<form><conv><kform>` suffix of attribute types (the model has one string type and no "
+        "conversions), maps `oy` (Style<Option<_>>) to the optional named attribute `style`, and turns `x aty ty` (spreading) into "
+        "View.spread / Ty.spread (the item becomes the last attribute of every top-level element; AnyView hands it to its content)",
         "oracle normal form: attributes compared as a map, class as a token set, style as a declaration map, an empty "
         "class/style attribute identified with an absent one; node identity and mutation counters are compared between "
         "implementation and model but are not part of the property's oracle",
@@ -82,11 +96,16 @@ CFG = {
                  "[T; N] incl. N = 0 (ArrayState = tuple semantics; values are View.tuple of type Ty.arr n t)",
                  "text children &'static str / Cow<'static,str> / Arc<str> (one text type in the model: a rebuild may depend on contents "
                  "only; Arc<str> values are interned by contents in the harness because its rebuild compares pointers)",
+                 "attribute value types &'static str / Cow / Arc<str> / Oco and the Cloneable / CloneableOwned forms of every item (ONE string "
+                 "type in the model: type erasure and the conversions are transparent); Style<Option<_>> = optional named attribute `style`; "
+                 "AddAnyAttr for tuples / Vec / Option / Either / arrays / HtmlElement / AnyView (View.spread: the spec of spreading, not a model "
+                 "of AnyViewWithAttrs' state; AnyViewWithAttrs is never put INSIDE another AnyView because the model type of both is `any`)",
                  "NOT modelled in C03 (shared View/State/Ty inductives are imported by C05 and kept as they are): StaticVec / Fragment "
                  "(StaticVec::rebuild re-mounts at the END of its parent, outside the property at HEAD; C05 models it on the side as "
                  "FragState), keyed lists (C11)"],
     "assumptions": ["states are mounted (rebuild of a never-mounted Vec panics in Rndr::mount_before; not part of the property)",
-                    "attribute names are the lower-case AttributeKey constants; class tokens are non-empty without whitespace",
+                    "attribute names are the lower-case AttributeKey constants; class:(name,bool) names that are not one token are generated and "
+                    "fall in the known class invalid-class-token (F-C03-7); the stage-2b theorems assume one-token names (itemOk)",
                     "strings contain no non-ASCII whitespace (str::trim in the style parser is modelled for the Unicode "
                     "White_Space set, split_ascii_whitespace for ASCII)"],
     "manifest": {
@@ -113,7 +132,12 @@ CFG = {
                 "and stage 4 (keyed, not in the Lean View type). The full "
                 "statement over every attribute shape (C03_rebuild_eq_fresh_stmt) is FALSE of the code: kernel-checked refutation "
                 "C03_rebuild_eq_fresh_stmt_false plus one witness per remaining finding class (F-C03-1 class-overwrite, F-C03-2 style-overwrite, "
-                "F-C03-5 dup-item), each replayed on the real tachys; F-C03-1 (AnyView identical-value part), F-C03-3 toggle-rename and "
+                "F-C03-5 dup-item), each replayed on the real tachys; further classes: F-C03-6 nodeless-old-branch, F-C03-7 invalid-class-token "
+                "(a toggle name that is not one token is rejected by classList, consistently in build and rebuild); F-C03-8 (AnyViewWithAttrs::rebuild "
+                "keeps the attribute states of the elements shown before the rebuild) has a proposed repair hooks/fix-c03-8.patch and is kept out of "
+                "the generated inputs until it lands (SPREAD_ANY_REPAIRED in the harness; hooks/fix-c03-8.corpus.ops, hooks/fix-c03-8.demo.rs); "
+                "string forms / into_cloneable[_owned] / type erasure of attribute values are transparent in the model, spreading is View.spread and "
+                "keeps views well typed (C03_spread_typed); F-C03-1 (AnyView identical-value part), F-C03-3 toggle-rename and "
                 "F-C03-4 style-rename are repaired in /repo (fix: commits, hooks/fix-c03-{1,3,4}.patch), the model follows the repaired code "
                 "and keeps the pre-repair rebuildAttrOld with regression witnesses (*_witness_old / *_fixed). Tied to "
                 "the code by a differential run of the real Render/Mountable impls under the native DOM against the compiled model "
